@@ -207,6 +207,12 @@ def run_hist(case, ctx, g):
     hist.run(PROP, case, ctx)
 
 
+def _kind(tgt, case):
+    """the requested shape as a list, a tuple or a torch.Size (all three are accepted by reshape for TT tensors)"""
+    k = case['seed'] % 4
+    return tuple(tgt) if k == 1 else (torch.Size(list(tgt)) if k == 2 else list(tgt))
+
+
 def _info(x):
     return dn.fro(dn.D(x)), dn.s_rep(x), dn.ueps(x.cores[0].dtype)
 
@@ -229,9 +235,9 @@ def run_reshape_t(case, ctx, g):
     key = 'reshape/tensor/%s' % (tclass or 'plain')
     what = 'reshape N=%s R=%s -> %s eps=%s %s %s' % (N, [int(r) for r in x.R], tgt, eps, case['vals'], case['dtype'])
     if eps is None:
-        y = ctx.lib('reshape', lambda t: torchtt.reshape(t, list(tgt)), x)
+        y = ctx.lib('reshape', lambda t: torchtt.reshape(t, _kind(tgt, case)), x)
     else:
-        y = ctx.lib('reshape', lambda t: torchtt.reshape(t, list(tgt), eps), x)
+        y = ctx.lib('reshape', lambda t: torchtt.reshape(t, _kind(tgt, case), eps), x)
     judge(ctx, key, what, info, y, ref, 1e-16 if eps is None else eps, tgt, None, ('reshape_t', tuple(N), tuple(tgt), eps, case['vals'], case['dtype']))
 
 
@@ -267,9 +273,9 @@ def run_permute(case, ctx, g):
     key = 'permute/%s/%s' % (kind, 'identity' if list(p) == list(range(d)) else 'order%d' % min(d, 3))
     what = 'permute %s N=%s M=%s R=%s dims=%s eps=%s %s %s' % (kind, N, M, [int(r) for r in x.R], p, eps, case['vals'], case['dtype'])
     if eps is None:
-        y = ctx.lib('permute', lambda t: torchtt.permute(t, list(p)), x)
+        y = ctx.lib('permute', lambda t: torchtt.permute(t, tuple(p) if case['seed'] % 3 == 1 else list(p)), x)
     else:
-        y = ctx.lib('permute', lambda t: torchtt.permute(t, list(p), eps), x)
+        y = ctx.lib('permute', lambda t: torchtt.permute(t, tuple(p) if case['seed'] % 3 == 1 else list(p), eps), x)
     judge(ctx, key, what, info, y, ref, 1e-12 if eps is None else eps, [N[i] for i in p], [M[i] for i in p] if M else None, ('permute', kind, tuple(N), tuple(M or ()), tuple(p), eps, case['vals'], case['dtype']))
 
 
